@@ -214,6 +214,11 @@ class Engine:
         elif sel == "env":
             env["C17_BUILTIN_DIR"] = self.decoy
             env["PDSH_MODULE_DIR"] = D
+            if case.get("padlen"):
+                # the same directory written with "/." components up to a length near PATH_MAX: the walk up its ancestors
+                # runs out of room for "/.." before it has seen them all
+                k = max(0, (case["padlen"] - len(D)) // 2)
+                env["PDSH_MODULE_DIR"] = D + "/." * k
         else:
             env["C17_BUILTIN_DIR"] = D
             env["PDSH_MODULE_DIR"] = self.decoy
